@@ -4,7 +4,7 @@
 From Verif Require Import Base.Prelude Base.StrUtil Base.Index Base.NdArr Base.PyRange
   Model.MapSpec Model.MapSpecSpec Model.MapRun Model.SymBody.
 From Verif Require Import Model.MapDenote Proofs.MapRunFacts.
-From Verif Require Import Proofs.IndexFacts Proofs.PyRangeFacts Proofs.MapResumeFacts Proofs.MapValuesFacts Proofs.MapResumeDenote Proofs.FixedSpecFacts Proofs.PartSim Proofs.PartReads.
+From Verif Require Import Proofs.IndexFacts Proofs.PyRangeFacts Proofs.MapResumeFacts Proofs.MapValuesFacts Proofs.MapResumeDenote Proofs.FixedSpecFacts Proofs.PartSim Proofs.PartReads Proofs.PiecesCalls.
 From Verif Require Import Model.MapResume Model.FixedSpec.
 
 (* ---------------------------------------------------------------- Python slices / ints (Base/PyRange.v) *)
@@ -221,7 +221,9 @@ Theorem C06_part_leaves_substore : forall body user p inputs D fx rs,
   (forall g, In g p -> fsub body p inputs D rs g) ->
   exists ps, map_run_sel body p inputs user (Some fx) rs = ROk ps
     /\ (forall g, In g p -> fsub body p inputs D (p_store ps) g)
-    /\ Forall (dump_den body p inputs D) (p_tr ps).
+    /\ Forall (dump_den body p inputs D) (p_tr ps)
+    /\ (forall g o, In g p -> is_mapped g = false -> In o (fouts g) ->   (* outputs without mapped inputs are all stored *)
+          dict_get (st_val (p_store ps)) o = Some (Ok (dval D o))).
 Proof. exact part_from_substore. Qed.
 Print Assumptions C06_part_leaves_substore.
 
@@ -248,15 +250,43 @@ Theorem C06_pieces_eq_whole : forall body user p inputs D fxs rs,
 Proof. exact pieces_eq_whole. Qed.
 Print Assumptions C06_pieces_eq_whole.
 
-Theorem C06_empty_store_is_substore : forall body p inputs D g, fsub body p inputs D empty_store g.
-Proof. exact fsub_empty. Qed.
-Print Assumptions C06_empty_store_is_substore.
-
 (* the hypotheses are satisfiable: f: x[i] -> y[i] followed by h: y[i] -> z[i], requests i=0 and i=1: *)
 Definition ex3_h : mfunc :=
   {| fname := s "h"; fouts := [s "z"]; fparams := [s "y"]; fbound := []; fdefaults := [];
      fspec := Some {| ins := [{| aname := s "y"; axes := [Some (s "i")] |}]; outs := [{| aname := s "z"; axes := [Some (s "i")] |}] |};
      fint := []; fret := [] |}.
+(* ... and the CALL LOGS ARE DUPLICATE-FREE: over all the parts and the final full run no (function, element) is
+   called twice (a run calls only what misses an output, what it computes is present afterwards, and what is present
+   stays present).  Extra hypotheses: output names and function names are unique over the generations (decidable),
+   stored arrays have the size of their index space (sized; trivially true for the empty store). *)
+Theorem C06_pieces_calls_duplicate_free : forall body user p inputs D fxs rs,
+  body_arity body ->
+  request_ok p inputs = true -> denote_run body p inputs user = Ok D -> pipeline_order_ok p = true ->
+  consistent_axes (arrayspecs p) ->
+  NoDup (flat_map fouts (concat (generations p))) -> NoDup (map fname (concat (generations p))) ->
+  (forall fx, In fx fxs -> validate_fixed (Some fx) inputs p = Ok tt /\ fixed_in_range p (d_shapes D) fx = true) ->
+  sized {| x_p := p; x_inputs := inputs; x_shapes := d_shapes D |} rs ->
+  (forall g, In g p -> fsub body p inputs D rs g) ->
+  exists rsN trs psF,
+    parts_run body p inputs user fxs rs rsN trs
+    /\ map_run_sel body p inputs user None rsN = ROk psF
+    /\ NoDup (concat (map calls_of (trs ++ [p_tr psF]))).
+Proof. exact pieces_calls_duplicate_free. Qed.
+Print Assumptions C06_pieces_calls_duplicate_free.
+
+Example ex_calls_hyps :
+  NoDup (flat_map fouts (concat (generations [ex_f; ex3_h]))) /\ NoDup (map fname (concat (generations [ex_f; ex3_h])))
+  /\ forall c, sized c empty_store.
+Proof.
+  split; [vm_compute; repeat constructor; cbn; intuition discriminate|].
+  split; [vm_compute; repeat constructor; cbn; intuition discriminate|].
+  intros c f sm o st _ _ _ _ H. discriminate H.
+Qed.
+
+Theorem C06_empty_store_is_substore : forall body p inputs D g, fsub body p inputs D empty_store g.
+Proof. exact fsub_empty. Qed.
+Print Assumptions C06_empty_store_is_substore.
+
 Example ex_part_hyps : exists D,
   denote_run sym_body [ex_f; ex3_h] ex_inputs [] = Ok D
   /\ request_ok [ex_f; ex3_h] ex_inputs = true /\ pipeline_order_ok [ex_f; ex3_h] = true
